@@ -185,15 +185,22 @@ pub struct Stat {
 
 /// analytic oracle on one stroke; `lines` = the polylines the region is built from (user space)
 pub fn check_region(case: &str, got: &[u32], w: i32, h: i32, lines: &[Polyline], sp: &StrokeParams, xf: &Xf, mu: f64, what: &str) -> Result<Stat, Violation> {
-    let reg = match stroke_region(lines, sp) {
+    let m = xf64(xf);
+    let smax = (m[0] * m[0] + m[1] * m[1]).sqrt().max((m[2] * m[2] + m[3] * m[3]).sqrt()).max(1e-9);
+    // pens thousands of pixels wide: 48 steps per half turn leave a band of several pixels between
+    // the inscribed and the circumscribed polygon in which nothing is asserted; from a device radius
+    // of 5000 px the round pieces are approximated to 0.05 px instead
+    let smax_raw = (m[0] * m[0] + m[1] * m[1]).sqrt().max((m[2] * m[2] + m[3] * m[3]).sqrt());
+    let rdev = 0.5 * sp.width * smax_raw;
+    let fine = rdev >= 5000.0 && rdev <= 1e6;
+    let reg = if fine { with_arc_tolerance(0.05 / smax_raw, || stroke_region(lines, sp)) } else { stroke_region(lines, sp) };
+    let reg = match reg {
         Some(r) => r,
         None => return Ok(Stat { hash: 0, inside: 0, outside: 0, undecided: true }),
     };
-    let m = xf64(xf);
-    let smax = (m[0] * m[0] + m[1] * m[1]).sqrt().max((m[2] * m[2] + m[3] * m[3]).sqrt()).max(1e-9);
     let reg = reg.transform(&m);
     // polygonal approximation of round pieces: inscribed error r (1 - cos(pi / (2 * 48)))
-    let arc_err = 0.5 * sp.width * smax * 6e-4;
+    let arc_err = if fine { 0.06 } else { 0.5 * sp.width * smax * 6e-4 };
     let margin = mu + std::f64::consts::FRAC_1_SQRT_2 + arc_err + 1e-6;
     let qy = Query::new(&reg);
     let exposed = qy.exposed().to_vec();
@@ -724,6 +731,29 @@ impl Check for C04 {
                     let closed = PathSpec::new(vec![POp::M(0., 0.), POp::L(b.0, b.1), POp::L(0., side * -2000.), POp::L(-400., 0.), POp::Z]);
                     account(run, 11_000 + s, l, &closed, &st, &xf, false);
                 }
+            });
+        }
+        // round joins under pens of 20 000 px: the sector's rim is a circle of radius 10 000 and the
+        // surface looks at it at several places (turns of at most 90 degrees, butt caps: the library
+        // draws such a join from arcs of at most 45 degrees, whose cubic approximation is 0.04 px off
+        // at this radius)
+        {
+            let turns = [90.0f32, 85.0];
+            let fracs = [0.1f32, 0.2, 0.3, 0.5, 0.7, 0.8, 0.9];
+            run.bound("round joins under a 20000 px pen", format!("turns of {:?} degrees (both senses) with arms of 15000, round join, butt caps; the 36x36 surface centred on the rim at {:?} of the sector", turns, fracs));
+            run.par(turns.len() * 2 * fracs.len(), |s, l| {
+                let th = turns[s / (2 * fracs.len())].to_radians() * if (s / fracs.len()) % 2 == 0 { 1.0 } else { -1.0 };
+                let f = fracs[s % fracs.len()];
+                let r = 10000.0f32;
+                let b = ((15000.0 * th.cos()).round(), (15000.0 * th.sin()).round());
+                // outer side of a turn towards +y is -y; rim point at the fraction f of the sector
+                let sg = if th > 0.0 { 1.0 } else { -1.0 };
+                let phi = f * th.abs();
+                let rim = ((r * phi.sin()).round(), (-sg * r * phi.cos()).round());
+                let xf: Xf = [1., 0., 0., 1., 18.0 - rim.0, 18.0 - rim.1];
+                let st = StyleSpec { width: 2.0 * r, cap: 0, join: 1, miter: 4.0, dash: vec![], offset: 0. };
+                let open = PathSpec::new(vec![POp::M(-15000., 0.), POp::L(0., 0.), POp::L(b.0, b.1)]);
+                account(run, 11_500 + s, l, &open, &st, &xf, false);
             });
         }
         run.bound("scribbles", "one segment retraced 130 / 260 times and a triangle outline repeated 130 times in one subpath x 2 joins, width 4".to_string());
